@@ -17,7 +17,7 @@ impl Prop for C11Prop {
         "C11"
     }
     fn rule(&self) -> String {
-        "Streams (proptest tapes): prog / progbig = grammar-derived ASCII-only programs with comments, use_tabs=false, other settings generated; width pairs W1 < W2 from {10,15,20,30,40,60,80,100,120,160,200} and random 8..250; stream tight: W1 within two columns of the length of a line of the wide result and W2 = W1 + {1,2,3,10,40} (boundary-directed). Oracles: (a) if every line of format_W2(x) has <= W1 bytes then format_W1(x) == format_W2(x); (b) lines(format_W2(x)) <= lines(format_W1(x)); (c) if every line of format_W1(x) has <= W1 bytes then every line of format_W2(x) has <= W2. Width = bytes = chars = columns on this domain. Runs where the wrapper logged 'Iteration limit reached' are classified separately. Non-trivial = the two outputs differ, or premise (a) holds with a wrapped line; distinct by hash of (input, configuration, W2)."
+        "Streams (proptest tapes): prog / progbig = grammar-derived ASCII-only programs with comments, use_tabs=false, other settings generated; width pairs W1 < W2 from {10,15,20,30,40,60,80,100,120,160,200} and random 8..250; stream tight: W1 within two columns of the length of a line of the wide result and W2 = W1 + {1,2,3,10,40}, or W2 up to 20 columns below that length and W1 a further 1..30 below (boundary-directed). Streams simple / simple_tight: the strictly asserted domain (simple expressions, declarations incl. variant records with several labels, trailing / own-line / mid-statement `//` comments, continuation <= 8 columns). Oracles: (a) if every line of format_W2(x) has <= W1 bytes then format_W1(x) == format_W2(x); (b) lines(format_W2(x)) <= lines(format_W1(x)); (c) if every line of format_W1(x) has <= W1 bytes then every line of format_W2(x) has <= W2. Width = bytes = chars = columns on this domain. Runs where the wrapper logged 'Iteration limit reached' are classified separately. Non-trivial = the two outputs differ, or premise (a) holds with a wrapped line; distinct by hash of (input, configuration, W2)."
             .into()
     }
     fn assumptions(&self) -> Vec<String> {
@@ -69,8 +69,18 @@ impl Prop for C11Prop {
                 return None;
             }
             let l = lines[t.below(lines.len() as u32) as usize].len() as u32;
-            w1 = (l + t.below(4)).saturating_sub(2).max(8);
-            w2 = w1 + *t.pick(&[1, 1, 2, 3, 10, 40]);
+            if t.chance(1, 2) {
+                w1 = (l + t.below(4)).saturating_sub(2).max(8);
+                w2 = w1 + *t.pick(&[1, 1, 2, 3, 10, 40]);
+            } else {
+                // the wider value a little below the line's length (the line has to be wrapped,
+                // but much of it still fits), the narrower one well below that
+                w2 = l.saturating_sub(1 + t.below(l.min(40) / 2)).max(9);
+                w1 = w2.saturating_sub(*t.pick(&[1, 2, 4, 8, 12, 16, 20, 30])).max(8);
+                if w1 >= w2 {
+                    w2 = w1 + 1;
+                }
+            }
         }
         cfg.wrap_column = w1;
         let mut c = wf::case_of(&w, cfg.clone(), stream);
